@@ -222,6 +222,96 @@ def rewardSp (tol : Rat) (m : POMDP) (b : Vec) (a : Nat) : Rat :=
 def rewardSpConv (tol : Rat) (m : POMDP) (b : Vec) (a : Nat) : Rat :=
   sumToNZ m.S (fun s => sparseRewardMatrixConv tol m s a * b s)
 
+def allLt (n : Nat) (p : Nat → Bool) : Bool := (List.range n).all p
+
+/-! ## `POMDP::SparseModel::getObservationProbability(const Belief & b, size_t o, size_t a)`
+
+  `double p = 0.0; for s: { if (b[s] == 0.0) continue; for s1: p += b[s] * T(s,a,s1) * coeff(s1,o); } return p;`
+  one accumulator over the double loop, rows of zero belief skipped.  -/
+
+def obsProbLoop (m : POMDP) (b : Vec) (a o : Nat) : Nat → Rat
+  | 0 => 0
+  | s+1 =>
+    if b s = 0 then obsProbLoop m b a o s
+    else addTo (obsProbLoop m b a o s) m.S (fun s1 => b s * m.T s a s1 * m.Ob s1 a o)
+
+def obsProbB (m : POMDP) (b : Vec) (a o : Nat) : Rat := obsProbLoop m b a o m.S
+
+/-! ## validation of supplied tables (`isProbability`, include/AIToolbox/Utils/Probability.hpp, src/Utils/Probability.cpp)
+  and the models the constructors / setters accept -/
+
+/-- `checkEqualSmall(a, b)`: `std::fabs(a - b) <= equalToleranceSmall` -/
+def eqSmall (tol a b : Rat) : Bool := decide (absQ (a - b) ≤ tol)
+
+/-- `checkDifferentSmall(a, b)`: `!checkEqualSmall(a, b)` -/
+def diffSmall (tol a b : Rat) : Bool := !eqSmall tol a b
+
+/-- the loop of `isProbability(size, in)`: `p = 0; for i: { if (in[i] < 0.0) return false; p += in[i]; }`
+    (`none` = returned false inside the loop, `some p` = the accumulated sum) -/
+def isProbLoop (row : Nat → Rat) : Nat → Option Rat
+  | 0 => some 0
+  | n+1 =>
+    match isProbLoop row n with
+    | none => none
+    | some p => if row n < 0 then none else some (p + row n)
+
+/-- `isProbability(size, in)`: the loop, then `if (checkDifferentSmall(p, 1.0)) return false; return true;` -/
+def isProbRow (tol : Rat) (n : Nat) (row : Nat → Rat) : Bool :=
+  match isProbLoop row n with
+  | none => false
+  | some p => !diffSmall tol p 1
+
+/-- one row of `isProbability(const Matrix2D &)`: `!(row.minCoeff() < 0.0 || checkDifferentSmall(row.sum(), 1.0))` -/
+def isProbRowE (tol : Rat) (n : Nat) (row : Nat → Rat) : Bool :=
+  !((List.range n).any (fun i => decide (row i < 0)) || diffSmall tol (sumTo n row) 1)
+
+/-- one row of `isProbability(const SparseMatrix2D &)`:
+    `!(checkDifferentSmall(row.sum(), 1.0) || checkDifferentSmall(row.cwiseAbs().sum(), 1.0))` (no sign test) -/
+def isProbRowSp (tol : Rat) (n : Nat) (row : Nat → Rat) : Bool :=
+  !(diffSmall tol (sumTo n row) 1 || diffSmall tol (sumTo n (fun i => absQ (row i))) 1)
+
+/-- the sparse form with fixes/C05-2-sparse-isprobability-sign.diff applied: the stored values are walked first
+    (`for (InnerIterator it(in, k); it; ++it) if (it.value() < 0.0) return false;` — a position that is not stored holds 0,
+    so this tests every entry), then `checkDifferentSmall(row.sum(), 1.0)` per row; the `cwiseAbs` test is gone -/
+def isProbRowSpSigned (tol : Rat) (n : Nat) (row : Nat → Rat) : Bool :=
+  !((List.range n).any (fun i => decide (row i < 0))) && !diffSmall tol (sumTo n row) 1
+
+/-- the sparse form as the source currently has it (`Gen.BeliefDeepSrc.sparseSignTest`) -/
+def isProbRowSpAs (signTest : Bool) (tol : Rat) (n : Nat) (row : Nat → Rat) : Bool :=
+  if signTest then isProbRowSpSigned tol n row else isProbRowSp tol n row
+
+/-- `POMDP::Model(o, of, s, a, t, r, d)`: `MDP::Model::setTransitionFunction(t)` = `isProbability(S, A, S, t)`,
+    then `POMDP::Model::setObservationFunction(of)` = `isProbability(O, of[s1][a])` for every `(s1, a)`;
+    the tables are then copied entry by entry (`transitions_[a](s, s1) = t[s][a][s1]`, `observations_[a](s1, o) = of[s1][a][o]`) -/
+def acceptDense (tol : Rat) (m : POMDP) : Bool :=
+  allLt m.S (fun s => allLt m.A (fun a => isProbRow tol m.S (fun s1 => m.T s a s1))) &&
+  allLt m.S (fun s1 => allLt m.A (fun a => isProbRow tol m.O (fun o => m.Ob s1 a o)))
+
+/-- `POMDP::SparseModel(o, of, s, a, t, r, d)`: the same entry checks on the supplied tables, then the tables are stored
+    without their sub-threshold entries (`sparsify`) and what is stored must pass `isProbability(const SparseMatrix3D &)` -/
+def acceptSparse (tol : Rat) (m : POMDP) : Bool :=
+  acceptDense tol m &&
+  allLt m.A (fun a => allLt m.S (fun s => isProbRowSp tol m.S (fun s1 => keep tol (m.T s a s1)))) &&
+  allLt m.A (fun a => allLt m.S (fun s1 => isProbRowSp tol m.O (fun o => keep tol (m.Ob s1 a o))))
+
+/-- the converting constructors `MDP::SparseModel(const M&)` / `POMDP::SparseModel(const PM&)`: per entry
+    `if (p < 0.0 || p > 1.0) throw; if (checkDifferentSmall(p, 0.0)) insert(…) = p;` and per row
+    `if (checkDifferentSmall(1.0, stored_row.sum())) throw;` -/
+def convRowSp (tol : Rat) (n : Nat) (row : Nat → Rat) : Bool :=
+  allLt n (fun i => !(decide (row i < 0) || decide (1 < row i))) && !diffSmall tol 1 (sumTo n (fun i => keep tol (row i)))
+
+def acceptSparseConv (tol : Rat) (m : POMDP) : Bool :=
+  allLt m.S (fun s => allLt m.A (fun a => convRowSp tol m.S (fun s1 => m.T s a s1))) &&
+  allLt m.A (fun a => allLt m.S (fun s1 => convRowSp tol m.O (fun o => m.Ob s1 a o)))
+
+/-- `POMDP::Model(o, s, a, discount)`: `MDP::Model(s, a)` sets every `transitions_[a]` to the identity,
+    `observations_[a].col(0).fill(1.0)`, the other columns zero -/
+def defaultModel (S A O : Nat) : POMDP :=
+  { S := S, A := A, O := O,
+    T := fun s _ s1 => if s = s1 then 1 else 0,
+    Ob := fun _ _ o => if o = 0 then 1 else 0,
+    R := fun _ _ _ => 0 }
+
 /-! ## the specification side: joint probability and P(o | b, a) -/
 
 /-- textbook `P(o | b, a) = Σ_s b(s) Σ_s1 T(s,a,s1) O(s1,a,o)` -/
@@ -262,9 +352,28 @@ def backward (m : POMDP) : List (Nat × Nat) → Vec
 /-- the joint distribution of (previous state, next state, observation) under belief `b` and action `a` -/
 def joint (m : POMDP) (b : Vec) (a : Nat) (s s1 o : Nat) : Rat := b s * m.T s a s1 * m.Ob s1 a o
 
-/-! ## decidable checkers evaluated by the driver on the library's exact outputs (L3) -/
+/-! ## simulated trajectories (`sampleSOR`) -/
 
-def allLt (n : Nat) (p : Nat → Bool) : Bool := (List.range n).all p
+/-- one simulated step `(a, s1, o)` from state `s` that the tables allow -/
+def Consistent (m : POMDP) : Nat → List (Nat × Nat × Nat) → Prop
+  | _, [] => True
+  | s, (a, s1, o) :: h => a < m.A ∧ s1 < m.S ∧ o < m.O ∧ 0 < m.T s a s1 ∧ 0 < m.Ob s1 a o ∧ Consistent m s1 h
+
+/-- the state the trajectory ends in -/
+def endState : Nat → List (Nat × Nat × Nat) → Nat
+  | s, [] => s
+  | _, (_, s1, _) :: h => endState s1 h
+
+/-- what the agent sees of it -/
+def observed (h : List (Nat × Nat × Nat)) : List (Nat × Nat) := h.map (fun x => (x.1, x.2.2))
+
+/-- decidable form of `Consistent` for the driver -/
+def consistentB (m : POMDP) : Nat → List (Nat × Nat × Nat) → Bool
+  | _, [] => true
+  | s, (a, s1, o) :: h =>
+    decide (a < m.A) && decide (s1 < m.S) && decide (o < m.O) && decide (0 < m.T s a s1) && decide (0 < m.Ob s1 a o) && consistentB m s1 h
+
+/-! ## decidable checkers evaluated by the driver on the library's exact outputs (L3) -/
 
 /-- the reported unnormalised update is entry-wise the Bayes weight -/
 def checkUnnorm (m : POMDP) (b : Vec) (a o : Nat) (impl : Vec) : Bool :=
